@@ -25,6 +25,12 @@ import (
 	"github.com/TeaEntityLab/fpGo/v2/network"
 )
 
+type c18TempErr struct{ msg string }
+
+func (e *c18TempErr) Error() string   { return e.msg }
+func (e *c18TempErr) Temporary() bool { return true }
+func (e *c18TempErr) Timeout() bool   { return false }
+
 type c18Stub struct {
 	name string
 	log  *[]string
@@ -98,6 +104,11 @@ func c18Run(line string) string {
 	for i := 0; i < nIcpt; i++ {
 		i := i
 		errs[i] = fmt.Errorf("interceptor %d failed", i)
+		if i%2 == 1 {
+			// odd interceptors fail with an error that calls itself temporary: "an error aborts" holds for it as for any other
+			// (no second attempt may run the chain again)
+			errs[i] = &c18TempErr{fmt.Sprintf("interceptor %d failed (temporary)", i)}
+		}
 		f := network.Interceptor(func(r *http.Request) error {
 			log = append(log, "i"+strconv.Itoa(i)+":"+strings.Join(r.Header["X-Trace"], "."))
 			r.Header.Add("X-Trace", strconv.Itoa(i))
